@@ -197,7 +197,11 @@ def fails_closed(b, rt, target, cache=None):
     Optional[Left], a flag, an early return ...)"""
     g = b.g
     key = (rt.id, target)
-    if cache is not None and key in cache:
+    shared = getattr(b, '_fc_cache', None)
+    if shared is None:
+        shared = b._fc_cache = {}
+    cache = shared
+    if key in cache:
         return cache[key]
     ids = alt_ids(rt.data['value'])
     ok = False
@@ -229,12 +233,28 @@ def precedes(b, r, a, n, cache=None):
     passes a (dominance that ignores self-contradicting paths)."""
     if b.g.dominates(a, n):
         return True
-    key = ('dom', a, n)
-    if cache is not None and key in cache:
-        return cache[key]
+    shared = getattr(b, '_prec_cache', None)
+    if shared is None:
+        shared = b._prec_cache = {}
+    key = ('dom', r.arg_iteration, a, n)
+    if key in shared:
+        return shared[key]
+    # cheap answers first: n is not even reachable from a (a cannot precede it); or n is
+    # not reachable at all once a is taken out (a precedes it on every path)
+    rk = ('reach', a)
+    if rk not in shared:
+        shared[rk] = b.g.reachable_from(a)
+    if n not in shared[rk]:
+        shared[key] = False
+        return False
+    ak = ('avoid', r.arg_iteration, a)
+    if ak not in shared:
+        shared[ak] = b.g.reachable_from(r.arg_iteration, blocked=[a])
+    if n not in shared[ak]:
+        shared[key] = True
+        return True
     ok = cut_c(b, r.arg_iteration, n, [a])
-    if cache is not None:
-        cache[key] = ok
+    shared[key] = ok
     return ok
 
 
